@@ -6,6 +6,7 @@ original value functions only at recorded points, and `execute` can always build
 recorded history.
 -/
 import GemseoVerif.Model.C03
+import GemseoVerif.Lemmas.C03Doe
 import GemseoVerif.Props.C04
 import Mathlib.Data.List.Basic
 import Mathlib.Data.List.Perm.Subperm
@@ -436,6 +437,124 @@ theorem result_total (cfg4 : GV.C04.Cfg) (h : List GV.C04.Entry) (hne : h ≠ []
       refine ⟨s, i, rfl, hi, ?_⟩
       by_contra hc
       rw [List.getElem?_eq_none (Nat.le_of_not_lt hc)] at hge; cases hge
+
+/-! ### Sequential DOE: each distinct sample once, recorded in generation order -/
+
+theorem runUntilStop_append (cfg : Cfg) (st st1 : St) (rs1 rs2 : List Req)
+    (h : runUntilStop cfg st rs1 = (st1, none)) :
+    runUntilStop cfg st (rs1 ++ rs2) = runUntilStop cfg st1 rs2 := by
+  induction rs1 generalizing st with
+  | nil =>
+    simp only [runUntilStop, Prod.mk.injEq, and_true] at h
+    subst h; rfl
+  | cons r rs ih =>
+    simp only [List.cons_append, runUntilStop] at h ⊢
+    cases hstep : step cfg st r with
+    | mk st' o =>
+      rw [hstep] at h
+      cases o with
+      | served => exact ih st' h
+      | computed => exact ih st' h
+      | stop t => simp at h
+
+theorem doeRequests_cons (fnames : List String) (s : Key) (ss : List Key) :
+    doeRequests fnames (s :: ss) = sampleReqs fnames s ++ doeRequests fnames ss := by
+  simp [doeRequests, sampleReqs]
+
+/-- Processing one more generated sample. -/
+theorem doe_step_sample (fnames : List String) (hne : fnames ≠ []) (hnd : fnames.Nodup) (N : Nat)
+    (P : List Key) (s : Key) (st : St) (h : DoeInv fnames N P st) (hlen : P.length < N) :
+    ∃ st', runUntilStop doeCfg st (sampleReqs fnames s) = (st', none) ∧
+      DoeInv fnames N (P ++ [s]) st' := by
+  by_cases hs : (firstOcc P).contains s = true
+  · refine ⟨st, sample_seen fnames st (firstOcc P) s h.db hs fnames (fun f hf => hf), ?_⟩
+    have : firstOcc (P ++ [s]) = firstOcc P := by rw [firstOcc_snoc, hs]; rfl
+    exact ⟨by rw [this]; exact h.db, by rw [this]; exact h.current, h.maximum, by rw [this]; exact h.calls⟩
+  · have hs' : (firstOcc P).contains s = false := by simpa using hs
+    obtain ⟨f, fs, rfl⟩ := List.exists_cons_of_ne_nil hne
+    have hnd' := List.nodup_cons.mp hnd
+    have hfo : firstOcc (P ++ [s]) = firstOcc P ++ [s] := by rw [firstOcc_snoc, hs']; rfl
+    -- first output function: a new iteration
+    have hlk : lookupEntry st.db s = none := by
+      rw [h.db, lookup_in_map, hs']; rfl
+    have hrec : recorded st.db s (f, Kind.value) = false := by unfold recorded; rw [hlk]
+    have hun : unseen st.db s = true := by unfold unseen; rw [hlk]
+    have hmax : maximumIsReached st = false := by
+      unfold maximumIsReached
+      have := firstOcc_length_le P
+      rw [h.maximum, h.current]
+      simp only [Bool.and_eq_false_iff, bne_eq_false_iff_eq, decide_eq_false_iff_not, not_le]
+      right; omega
+    have hfresh : st.db.any (fun e => e.key == s) = false := by
+      rw [h.db]
+      simp only [List.any_map, List.any_eq_false, Function.comp, beq_iff_eq]
+      intro k hk hks
+      subst hks
+      have : (firstOcc P).contains k = true := by simpa using hk
+      rw [hs'] at this; cases this
+    have hstore : store st.db s (f, Kind.value) = st.db ++ [Entry.mk s [(f, Kind.value)]] := by
+      unfold store; simp [hfresh]
+    have hstep : step doeCfg st { name := f, kind := .value, key := s }
+        = (St.mk (st.db ++ [Entry.mk s (valueOuts [f])]) (st.current + 1) st.maximum
+            (st.calls ++ [Call.mk f .value s]), Outcome.computed) := by
+      simp only [step, hrec, hun, hmax, Bool.and_false, Bool.false_eq_true, if_false, doeCfg,
+        beq_self_eq_true, Bool.true_or, Bool.not_true, if_true, hstore, Bool.not_false]
+      simp [valueOuts]
+    have hrest := sample_rest st.db s (st.current + 1) st.maximum hfresh fs [f]
+      (st.calls ++ [Call.mk f .value s]) (by simp)
+      (by
+        intro g hg
+        have hgf : g ≠ f := fun e => hnd'.1 (e ▸ hg)
+        simp [valueOuts, hgf])
+      hnd'.2
+    refine ⟨St.mk (st.db ++ [Entry.mk s (valueOuts ([f] ++ fs))]) (st.current + 1) st.maximum
+      (st.calls ++ [Call.mk f .value s] ++ sampleCalls fs s), ?_, ?_⟩
+    · have hunf : runUntilStop doeCfg st (sampleReqs (f :: fs) s)
+          = runUntilStop doeCfg (St.mk (st.db ++ [Entry.mk s (valueOuts [f])]) (st.current + 1)
+              st.maximum (st.calls ++ [Call.mk f .value s])) (sampleReqs fs s) := by
+        simp only [sampleReqs, List.map_cons]
+        rw [runUntilStop, hstep]
+      rw [hunf]
+      exact hrest
+    · refine ⟨?_, ?_, h.maximum, ?_⟩
+      · simp [hfo, h.db]
+      · simp [hfo, h.current]
+      · simp [hfo, h.calls, sampleCalls, List.append_assoc]
+
+/-- **Sequential DOE theorem.** With the budget set to the number of generated samples (as
+    `BaseDOELibrary._pre_run` does), the run never stops early, every *distinct* sample is
+    evaluated exactly once for every output function (duplicates are served from the database),
+    and the database holds the distinct samples in generation order. -/
+theorem doe_each_distinct_once_in_generation_order (fnames : List String) (hne : fnames ≠ [])
+    (hnd : fnames.Nodup) (samples : List Key) :
+    ∃ st, runUntilStop doeCfg (start [] samples.length 0 true) (doeRequests fnames samples) = (st, none) ∧
+      st.db.map (·.key) = firstOcc samples ∧
+      st.calls = (firstOcc samples).flatMap (sampleCalls fnames) ∧
+      st.current = (firstOcc samples).length := by
+  have gen : ∀ (ss P : List Key) (st : St), DoeInv fnames samples.length P st →
+      P.length + ss.length ≤ samples.length →
+      ∃ st', runUntilStop doeCfg st (doeRequests fnames ss) = (st', none) ∧
+        DoeInv fnames samples.length (P ++ ss) st' := by
+    intro ss
+    induction ss with
+    | nil =>
+      intro P st h _
+      exact ⟨st, by simp [doeRequests, runUntilStop], by simpa using h⟩
+    | cons s ss ih =>
+      intro P st h hlen
+      simp only [List.length_cons] at hlen
+      obtain ⟨st1, hrun1, hinv1⟩ := doe_step_sample fnames hne hnd samples.length P s st h (by omega)
+      obtain ⟨st2, hrun2, hinv2⟩ := ih (P ++ [s]) st1 hinv1 (by simp; omega)
+      refine ⟨st2, ?_, by simpa using hinv2⟩
+      rw [doeRequests_cons, runUntilStop_append doeCfg st st1 _ _ hrun1]
+      exact hrun2
+  have h0 : DoeInv fnames samples.length [] (start [] samples.length 0 true) :=
+    ⟨by simp [start, firstOcc], by simp [start, firstOcc], rfl, by simp [start, firstOcc]⟩
+  obtain ⟨st, hrun, hinv⟩ := gen samples [] _ h0 (by simp)
+  simp only [List.nil_append] at hinv
+  refine ⟨st, hrun, ?_, hinv.calls, hinv.current⟩
+  rw [hinv.db]
+  simp [List.map_map, Function.comp_def]
 
 /-! ### Non-vacuity -/
 
